@@ -113,6 +113,8 @@ def do_op(w, action, a):
             w.tid(r)
     elif action == "AddTaxon":
         raised, r = _call(lambda: ns.add_taxon(w.taxa[a["t"] - 1]))
+    elif action == "AddTaxa":
+        raised, r = _call(lambda: ns.add_taxa([w.taxa[t - 1] for t in a["ts"]]))
     elif action == "NewTaxon":
         raised, r = _call(lambda: ns.new_taxon(a["l"]))
         res = _ids(w, r)
@@ -259,6 +261,8 @@ def model_step(w, name, args):
         return [do_op(w, "CreateTaxon", {"l": args[0]})]
     if name == "AddTaxon":
         return [do_op(w, "AddTaxon", {"t": args[0]})]
+    if name == "AddTaxa2":
+        return [do_op(w, "AddTaxa", {"ts": [args[0], args[1]]})]
     if name == "NewTaxon":
         return [do_op(w, "NewTaxon", {"l": args[0]})]
     if name == "RequireTaxon":
@@ -315,8 +319,10 @@ def run_case(case):
             evs.append(do_op(w, "NewTaxon", {"l": l}))
         elif r < 0.22:
             evs.append(do_op(w, "CreateTaxon", {"l": l}))
-        elif r < 0.30:
+        elif r < 0.27:
             evs.append(do_op(w, "AddTaxon", {"t": rng.choice(known)}))
+        elif r < 0.30:
+            evs.append(do_op(w, "AddTaxa", {"ts": [rng.choice(known) for _ in range(rng.randint(0, 4))]}))
         elif r < 0.34:
             evs.append(do_op(w, "NewTaxa", {"ls": [rng.choice(labels) for _ in range(rng.randint(0, 3))]}))
         elif r < 0.46:
